@@ -84,7 +84,14 @@ func init() {
 		nc := e.p("ctlops", 1+r.Intn(4))
 		jn.goClient("controller", func() {
 			for i := 0; i < nc; i++ {
-				switch r.Intn(9) {
+				switch r.Intn(10) {
+				case 9:
+					// a barrier on a worker that a plain Pause has already paused still has to wait
+					e.lifecycle("Pause", 0)
+					for k := r.Intn(2); k > 0; k-- {
+						vt.Yield()
+					}
+					e.lifecycle("PauseAndWait", 0)
 				case 0:
 					e.lifecycle("Pause", 0)
 				case 1, 2:
